@@ -52,8 +52,8 @@ def _atoms(prefix, resname, n, resid=1):
 DSPEC = {   # letter -> molecule name, start atoms, end atoms
     'P': ('PMOL', _atoms('A', 'PCG', 2), _atoms('C', 'PAA', 5)),
     # same residue name in both resolutions, different size
-    # (for Q the START resolution is the finer one: 7 atoms -> 3)
-    'Q': ('QMOL', _atoms('B', 'QRS', 7), _atoms('D', 'QRS', 3)),
+    # (for Q the START resolution is the finer one: 7 atoms -> 5)
+    'Q': ('QMOL', _atoms('B', 'QRS', 7), _atoms('D', 'QRS', 5)),     # (as many end atoms as P: two candidate .gro of equal size)
     # two residues in both resolutions
     'R': ('RMOL', _atoms('E', 'RCA', 1) + _atoms('F', 'RCB', 2, 2),
           _atoms('G', 'RAA', 3) + _atoms('H', 'RAB', 4, 2)),
